@@ -19,6 +19,8 @@
 static uint64_t vclock_ms;
 static uv_loop_t* g_loop;
 static int quiet;
+static int npolls;
+#define MAXPOLLS 4000
 
 int __real_clock_gettime(clockid_t id, struct timespec* ts);
 int __wrap_clock_gettime(clockid_t id, struct timespec* ts) {
@@ -35,6 +37,13 @@ int __wrap_epoll_pwait(int epfd, struct epoll_event* ev, int max, int timeout, c
   int n;
   if (g_loop == NULL || epfd != g_loop->backend_fd)
     return __real_epoll_pwait(epfd, ev, max, timeout, ss);
+  if (!quiet && ++npolls > MAXPOLLS) {
+    /* the loop is spinning (or crawling) without running callbacks: say so once and break out */
+    if (npolls == MAXPOLLS + 1) printf("!spin ");
+    g_loop->stop_flag = 1;
+    if (timeout > 0) vclock_ms += (uint64_t) timeout;
+    return 0;
+  }
   if (!quiet) {
     extern int poll_flags(void);
     int f = poll_flags();
@@ -216,7 +225,7 @@ int main(void) {
     *p1++ = 0; p2 = strchr(p1, ';'); if (!p2) { printf("\n"); continue; }
     *p2++ = 0;
     sscanf(line, "%llu %d", &t0, &metrics);
-    vclock_ms = t0; quiet = 0; nh = nw = nbeh = cbcount = 0;
+    vclock_ms = t0; quiet = 0; npolls = 0; nh = nw = nbeh = cbcount = 0;
     uv_loop_init(&loop);
     g_loop = &loop;
     if (metrics) uv_loop_configure(&loop, UV_METRICS_IDLE_TIME);
